@@ -52,6 +52,7 @@ int shim_getopt(int table, int argc, char **argv, int opterr_on, int *nopts, int
 
 /* number of warn()/warnx() calls swallowed so far */
 unsigned long shim_warn_count(void);
+void shim_syslog_mode(int on); /* real util/warnp.c only (binary of the sub "syslog"): warnp_syslog(on) */
 
 #ifdef __cplusplus
 }
